@@ -36,6 +36,28 @@ def scenarios(pid, tier, seed):
     raise ToolError("no spawn scenarios for " + pid)
 
 
+def run_raw(scs, tag):
+    """run spawn_replay on the scenarios and validate the trace; returns (results, states, blocks by id, note)"""
+    wd = workdir("spawn_" + tag)
+    scen_path = os.path.join(wd, "scen.ndjson")
+    with open(scen_path, "w") as f:
+        for s in scs:
+            f.write(json.dumps(s) + "\n")
+    trace_path = os.path.join(wd, "trace.ndjson")
+    r = run_harness([os.path.join(BIN, "spawn_replay"), scen_path, trace_path], 1500)
+    if r.returncode != 0:
+        log(r.stderr[-3000:])
+        raise ToolError("spawn_replay failed with status %d" % r.returncode)
+    note = open(trace_path + ".summary").read().strip()
+    if note.endswith("seen: 0"):
+        raise ToolError("interposition is silent")
+    results, tv_states, blocks = validate_sharded("SpawnTrace.tla", "SpawnTrace.cfg", trace_path, "spawn_" + tag)
+    for r in results:
+        if r["sanity"]:
+            raise ToolError("descriptor-table model disagrees with the kernel in %s: %s" % (r["id"], r["sanity"]))
+    return results, tv_states, {json.loads(b[0])["id"]: b for b in blocks}, note
+
+
 def run(pid, tier, seed, replay=None):
     t0 = time.time()
     build_harness()
